@@ -15,7 +15,7 @@ ID = "C14"
 LEVEL = "exploration"
 BUDGET = {"quick": (8, 500, 90), "thorough": (16, 12000, 600)}
 RULE = (
-    "seeded DAGs with 1-3 interrupt nodes at random positions (single/multi output, renamed inputs, sync or async handlers) and sibling nodes ready in "
+    "seeded DAGs with 1-3 interrupt nodes at random positions (single/multi output, renamed inputs, sync, async or awaitable-returning plain handlers) and sibling nodes ready in "
     "the interrupt's step; a handler script decides which interrupts pause (handler returns None) and which auto-resolve. History: run -> PAUSED -> run "
     "again with the caller-held values plus the response under pause.response_key(s) -> ... -> COMPLETED (the pause is this system's crash/restart: only "
     "caller-held values survive). The same graphs with the interrupt inside a nested graph (depth 1-2) for pause identity. AsyncRunner under SimLoop with "
@@ -42,7 +42,7 @@ def gen_case(rng: random.Random, tier: str) -> dict:
     for i in picks:
         nd = g["nodes"][i]
         nd["kind"] = "interrupt"
-        nd["async_handler"] = rng.random() < 0.5
+        nd["async_handler"] = rng.choice([False, True, True, "wrapped"])  # wrapped: a plain callable returning an awaitable
         for p in nd["params"]:
             p.pop("default", None)
         if rng.random() < 0.3:
@@ -324,6 +324,9 @@ def _nested_identity(doc, base_vals, ref_args, res, rts, viol) -> None:
         viol.append(("nested:pause_node_path", {"got": p["node_name"], "expected": exp_name}))
     if p["response_key"] != exp_key:
         viol.append(("nested:pause_response_key", {"got": p["response_key"], "expected": exp_key}))
+    exp_keys = {o: path.replace("/", ".") + "." + o for o in first["outs"]}
+    if p["response_keys"] != exp_keys:
+        viol.append(("nested:pause_response_keys", {"got": p["response_keys"], "expected": exp_keys}))
     rargs = ref_args.get(first["name"], {})
     if canon(p["value"]) != canon(rargs.get(first["params"][0]["name"])):
         viol.append(("nested:pause_value_differs_from_interrupt_input", {"got": p["value"], "expected": rargs.get(first["params"][0]["name"])}))
